@@ -61,7 +61,10 @@ func (c *Checker) checkC05State() {
 			c.Counters["basket_total_over_34_digits"]++
 		}
 	}
-	if msg, broken := brokenInv(c.it, "ecocredit/basket-supply"); broken {
+	msg, broken := brokenInv(c.it, "ecocredit/basket-supply")
+	was := c.basketInvBroken
+	c.basketInvBroken = broken
+	if broken && !was { // report the step at which the invariant starts to fail
 		key := "basket-invariant-broken"
 		desc := "registered invariant ecocredit/basket-supply reports: " + clip(msg, 400)
 		if exactOK {
@@ -188,6 +191,12 @@ func classIDOfDenom(denom string) string {
 		return denom[:i]
 	}
 	return denom
+}
+
+// PutAdmissible reports whether the admission rules (class, credit type, start date at the block
+// time of v) let batch bt enter basket b. Exported for generators that want mostly-valid deposits.
+func PutAdmissible(v *View, b *Basket, bt *Batch) bool {
+	return (&Checker{Counters: map[string]int{}}).putAdmissible(v, b, bt) == ""
 }
 
 // putAdmissible evaluates the three admission rules for one batch; it returns "" if the batch may
